@@ -590,10 +590,10 @@ func (p *parser) BasicParser(urlOrRef string, baseUrl *Url, url *Url, stateOverr
 					url.path.shortenPath(url.scheme)
 
 					if r != '/' && !url.isSpecialSchemeAndBackslash(r) {
-						url.path.addSegment("")
+						p.appendPathSegment(url, "")
 					}
 				} else if isSingleDotPathSegment(buffer.String()) && r != '/' && !url.isSpecialSchemeAndBackslash(r) {
-					url.path.addSegment("")
+					p.appendPathSegment(url, "")
 				} else if !isSingleDotPathSegment(buffer.String()) {
 					if url.scheme == "file" && url.path.isEmpty() && isWindowsDriveLetter(buffer.String()) {
 						// replace second code point in buffer with U+003A (:).
@@ -604,11 +604,7 @@ func (p *parser) BasicParser(urlOrRef string, baseUrl *Url, url *Url, stateOverr
 							buffer.WriteString(b[0:1] + ":" + b[2:])
 						}
 					}
-					if !p.opts.collapseConsecutiveSlashes || !url.IsSpecialScheme() || url.path.isEmpty() || len(url.path.p[len(url.path.p)-1]) > 0 {
-						url.path.addSegment(buffer.String())
-					} else {
-						url.path.p[len(url.path.p)-1] = buffer.String()
-					}
+					p.appendPathSegment(url, buffer.String())
 				}
 				buffer.Reset()
 				if r == '?' {
@@ -719,6 +715,17 @@ func (p *parser) BasicParser(urlOrRef string, baseUrl *Url, url *Url, stateOverr
 	}
 
 	return url, nil
+}
+
+// appendPathSegment appends a segment to url's path. When consecutive slashes are collapsed, a
+// trailing empty segment of a special URL's path is replaced instead, so that an empty segment can
+// only ever be the last one; this also holds for the empty segment a final dot segment leaves.
+func (p *parser) appendPathSegment(url *Url, segment string) {
+	if !p.opts.collapseConsecutiveSlashes || !url.IsSpecialScheme() || url.path.isEmpty() || len(url.path.p[len(url.path.p)-1]) > 0 {
+		url.path.addSegment(segment)
+	} else {
+		url.path.p[len(url.path.p)-1] = segment
+	}
 }
 
 func (p *parser) percentEncodeInvalidRune(r rune, tr *PercentEncodeSet) string {
